@@ -49,7 +49,7 @@ def same_span_passes(cfg: CFG):
     return best[0] + 1
 
 
-def build_c(e, cfg: CFG, N: int, K: int, D: int, fixed=None, expect=None, check_errpos=True):
+def build_c(e, cfg: CFG, N: int, K: int, D: int, fixed=None, expect=None, check_errpos=True, lr1_ref=None):
     """e: extract.Emitted; returns C text.  fixed: optional concrete kind string (model validation);
     expect: (result, errpos) expected for the fixed string."""
     NQ, NN, NS, NR = len(e.qkinds), len(e.nkinds), e.nstates, e.nrules
@@ -161,6 +161,41 @@ int main(void) {
 ''')
     if check_errpos and all_productive:
         out.append('  if (result == 2) __CPROVER_assert(errpos == ref_err, "C03 error reported at a token other than the first offending one (or Err(None) mismatch)");\n')
+    elif check_errpos and lr1_ref is not None:
+        # grammars with unproductive nonterminals: the reference index is where a canonical LR(1) parser stops
+        ra, rg = lr1_ref
+        rtag = [[{'err': 0, 's': 1, 'r': 2, 'acc': 3}[a[0]] for a in row] for row in ra]
+        rarg = [[(a[1] if len(a) > 1 else 0) for a in row] for row in ra]
+        rgoto = [[(-1 if x is None else x) for x in row] for row in rg]
+        pre = []
+        pre.append(c_array('REF_TAG', 'uint8_t', rtag))
+        pre.append(c_array('REF_ARG', 'uint16_t', rarg))
+        pre.append(c_array('REF_GOTO', 'int16_t', rgoto if cfg.NT else [[0]] * len(ra)))
+        pre.append(c_array('REF_RLEN', 'uint8_t', [len(r[1]) for r in cfg.rules]))
+        pre.append(c_array('REF_RLHS', 'uint8_t', [r[0] for r in cfg.rules]))
+        out.insert(1, ''.join(pre))
+        out.append(r'''
+  /* reference canonical LR(1) parser over the same kind[] */
+  {
+    uint16_t rst[D]; int rsp = 0, rpos = 0, rres = 0, rerr = -1;
+    rst[rsp++] = 0;
+    for (int step = 0; step < 2 * K; step++) {
+      if (rres != 0) continue;
+      uint8_t q = kind[rpos];
+      uint16_t top = rst[rsp - 1];
+      uint8_t tag = REF_TAG[top][q]; uint16_t arg = REF_ARG[top][q];
+      if (tag == 1) { __CPROVER_assert(rsp < D, "VERIF-BOUND model stack depth"); rst[rsp++] = arg; rpos++; }
+      else if (tag == 2) {
+        rsp -= REF_RLEN[arg];
+        int16_t g = REF_GOTO[rst[rsp - 1]][REF_RLHS[arg]];
+        if (g < 0) { rres = 2; rerr = rpos; } else { __CPROVER_assert(rsp < D, "VERIF-BOUND model stack depth"); rst[rsp++] = (uint16_t)g; }
+      } else if (tag == 3) { rres = 1; }
+      else { rres = 2; rerr = rpos; }
+    }
+    __CPROVER_assert(rres != 0, "VERIF-BOUND reference LR(1) parser does not return within 2K iterations");
+    if (result == 2 && rres == 2) __CPROVER_assert(errpos == rerr, "C03 error reported at another token than a canonical LR(1) parser of the grammar reports (or Err(None) mismatch)");
+  }
+''')
     if expect is not None:
         out.append('  __CPROVER_assert(result == %d, "MODEL-VALIDATION result differs from the native run");\n' % expect[0])
         if expect[0] == 2:
